@@ -101,6 +101,50 @@ def _expr_form(fd):
     b = _body(fd)
     if len(b) == 1 and isinstance(b[0], ast.Return) and b[0].value is not None:
         return b[0].value
+    return _expr_of_block(b, {}, 0)
+
+
+def _uses(node, name):
+    return sum(1 for n in ast.walk(node) if isinstance(n, ast.Name) and n.id == name and isinstance(n.ctx, ast.Load))
+
+
+def _expr_of_block(stmts, env, depth):
+    """A helper body made of local single-name assignments, if/else and `return <expr>` as ONE expression
+    (locals forward-substituted, if/else as a conditional expression), or None."""
+    if depth > 4:
+        return None
+    env = dict(env)
+    for i, st in enumerate(stmts):
+        rest = stmts[i + 1:]
+        if isinstance(st, ast.Expr) and isinstance(st.value, ast.Constant):
+            continue
+        if isinstance(st, ast.Pass):
+            continue
+        if isinstance(st, ast.Return):
+            if st.value is None:
+                return None
+            return _Sub(env).visit(_clone(st.value))
+        if isinstance(st, ast.Assign) and len(st.targets) == 1 and isinstance(st.targets[0], ast.Name):
+            v = _Sub(env).visit(_clone(st.value))
+            name = st.targets[0].id
+            if any(isinstance(n, (ast.Call, ast.Yield, ast.Await, ast.NamedExpr)) for n in ast.walk(v)):
+                # a value with calls is substituted only if it is used at most once afterwards
+                if sum(_uses(r, name) for r in rest) > 1:
+                    return None
+            env[name] = v
+            continue
+        if isinstance(st, ast.AugAssign) and isinstance(st.target, ast.Name) and st.target.id in env:
+            v = _Sub(env).visit(_clone(st.value))
+            env[st.target.id] = ast.BinOp(left=env[st.target.id], op=st.op, right=v)
+            continue
+        if isinstance(st, ast.If):
+            t = _Sub(env).visit(_clone(st.test))
+            a = _expr_of_block(list(st.body) + list(rest), env, depth + 1)
+            b_ = _expr_of_block(list(st.orelse) + list(rest), env, depth + 1)
+            if a is None or b_ is None:
+                return None
+            return ast.IfExp(test=t, body=a, orelse=b_)
+        return None
     return None
 
 
